@@ -36,7 +36,7 @@ def generate(rng, tier):
             n = rng.randint(201, 600 if tier == "quick" else 5000)
         if m * p * n > 20000:
             n = max(2, 20000 // (m * p))
-        e = 0 if ty in ("i32", "u64") else rng.choice([-4, -2, 0, 0, 1])
+        e = 0 if ty in ("i32", "u64") else rng.choice([-4, -2, 0, 0, 1, -16, -24])   # incl. very small scales
         sd = rng.choice([3, 10, 50])
         loc = [rng.choice([0, 0, 1, 5, 10]) * sd * rng.choice([-1, 1]) for _ in range(p)]
         if ty == "u64":
@@ -184,6 +184,27 @@ def oracle(case, out):
         v = C.f32_bits_to_float(b)
         if not (0.0 <= v <= 1.0):
             return "multi-chain p_accept %r outside [0,1]" % v
+    # p_accept = exponential moving average (weight 0.01) of 'state differs from previous state' indicators, in f32
+    try:
+        import numpy as np
+        a = np.float32(0.01)
+        c1 = np.float32(1.0) - a
+        for c in range(m):
+            prev = case["init"][c]
+            pcur = None
+            for st in range(n):
+                x = data[c][st]
+                acc = np.float32(1.0 if x != prev else 0.0)
+                if pcur is None:
+                    pcur = np.float32(1.0 if x[0] != prev[0] else 0.0)
+                pcur = c1 * pcur + a * acc
+                got = C.f32_bits_to_float(out["chains"][c]["p"][st])
+                if float(pcur) != got:
+                    return ("chain %d, update %d (state %s -> %s): reported acceptance rate %r, the 0.01-EMA of the 'state differs' "
+                            "indicators is %r" % (c, st, prev, x, got, float(pcur)))
+                prev = x
+    except ImportError:
+        pass
     for k in range(p):
         means, vars_ = [], []
         kmax = Fraction(1)
